@@ -736,4 +736,275 @@ pub fn generate(seed: u64, thorough: bool, emit: &mut dyn FnMut(String)) {
             emit_for(&mut rng, &text, &p, emit, false);
         }
     }
+    round6(seed, thorough, emit);
+}
+
+/// SIXTH SEEDED ROUND (DESIGN.md section 17).
+/// (O) BLOCK BOUNDARIES: every size parameter at blk-1, blk, blk+1, blk+2, 2 blk+1 for blk = 16, 32, 64, 128, 256 (1024 for
+///     the cheap ones): the DEGREE of a dense univariate polynomial whose coefficients are all non-zero, non-constant and
+///     non-symmetric (a chunk of the coefficient vector that is dropped, shifted by one, multiplied by the wrong power or
+///     left at the source's value is visible coefficient-wise and in the value at x = +-1 and next to 1), the same text
+///     through the multivariate parser (number of TERMS), multivariate polynomials with that many distinct monomials of
+///     which a third do not contain the variable, a single EXPONENT at those values (the power-rule factor), the number
+///     of VARIABLES IN ONE TERM (15..18, 31..34) with the differentiation variable first / in the middle / last.
+/// (P) RESONANT / EXACT RELATIONS: coefficient times power exactly 1 (0.5x^2, 0.25x^4, 0.2x^5, 0.1x^10, 0.0625x^16),
+///     derivatives that vanish EXACTLY at the evaluation point (x^3 - 3x at +-1, (x-a)^2 (x-b) at a, x^2y - 2xy at x = 1)
+///     and the same points one ulp / 2^-40 off, derivative terms that are like terms or cancel exactly (x^2y - yx^2,
+///     xyx - x^2y), powers exactly 1 and 2 next to each other, zero coefficients in the middle of a dense vector.
+fn round6(seed: u64, thorough: bool, emit: &mut dyn FnMut(String)) {
+    let mut rng = Rng::new(Rng::new(seed ^ 0xC03_0006).next());
+    let near_one = [1.0, -1.0, 1.0 + 2f64.powi(-7), -(1.0 - 2f64.powi(-8)), 0.9375, 1.0 + 2f64.powi(-52), 2.0, 0.5];
+    let coef = |k: usize, s: u64| -> i64 {
+        let c = ((k * k * 3 + 5 * k + s as usize) % 17) as i64 - 8;
+        if c == 0 { 9 } else { c }
+    };
+    let chain1 = |text: &str, p: &AnyPoly, steps: &str, k: usize, x: f64| format!("txt {} chain {} {k} {steps} {}", req_string(text), req_any(p), rbits(x));
+    let chainm = |text: &str, p: &AnyPoly, steps: &str, k: usize, binds: &[(String, f64)]| {
+        let mut s = format!("txt {} chainm {} {k} {steps} {}", req_string(text), req_any(p), binds.len());
+        for (n, v) in binds {
+            s.push_str(&format!(" {} {}", req_string(n), rbits(*v)));
+        }
+        s
+    };
+    let mut blocks: Vec<usize> = vec![16, 32, 64, 128, 256];
+    if thorough {
+        blocks.push(1024);
+    }
+    // ---- (O1) dense degree / (O2) term count through the multivariate parser
+    for &blk in &blocks {
+        for deg in [blk - 1, blk, blk + 1, blk + 2, 2 * blk + 1] {
+            let s0 = rng.below(17);
+            let var = *rng.pick(&["x", "x", "y", "t"]);
+            let mut order: Vec<usize> = (0..=deg).collect();
+            match rng.below(3) {
+                0 => order.reverse(),
+                1 => {
+                    for i in (1..order.len()).rev() {
+                        order.swap(i, rng.below(i as u64 + 1) as usize);
+                    }
+                }
+                _ => {}
+            }
+            // (one time in three a zero coefficient in the middle of a block and at a seam)
+            let holes = rng.chance(1, 3);
+            let terms: Vec<(bool, String)> = order
+                .iter()
+                .filter(|k| !(holes && (**k == blk || **k == blk / 2 + 1)))
+                .map(|&k| {
+                    let c = coef(k, s0);
+                    (c < 0, format!("{}{}^{}", c.abs(), var, k))
+                })
+                .collect();
+            let text = join_terms(&mut rng, &terms);
+            if let Some(p) = parse_simple(&text) {
+                emit(format!("txt {} deriv {}", req_string(&text), req_any(&p)));
+                for (i, x) in near_one.iter().enumerate() {
+                    if i < 5 || deg <= 66 {
+                        emit(chain1(&text, &p, "d", 1, *x));
+                    }
+                }
+                emit(chain1(&text, &p, "d d", 2, -1.0));
+                emit(chain1(&text, &p, "d i", 2, 1.0 + 2f64.powi(-7)));
+                emit(chain1(&text, &p, "i d", 2, 1.0));
+                emit(format!("txt {} pderiv {} {}", req_string(&text), req_any(&p), req_string(var)));
+            }
+            if deg <= 258 || thorough {
+                if let Some(p) = parse_inter(&text) {
+                    emit(format!("txt {} pderiv {} {}", req_string(&text), req_any(&p), req_string(var)));
+                    emit(format!("txt {} deriv {}", req_string(&text), req_any(&p)));
+                    emit(chain1(&text, &p, "d", 1, *rng.pick(&near_one[..5])));
+                    emit(chainm(&text, &p, &format!("D {}", req_string(var)), 1, &[(var.to_string(), *rng.pick(&near_one[..5]))]));
+                }
+            }
+        }
+    }
+    // ---- (O2) that many distinct monomials in two / three variables; a third of them without the variable
+    for &blk in &blocks {
+        if blk > 256 {
+            continue;
+        }
+        for nterms in [blk - 1, blk, blk + 1, blk + 2, 2 * blk + 1] {
+            let s0 = rng.below(17);
+            let terms: Vec<(bool, String)> = (0..nterms)
+                .map(|t| {
+                    let c = coef(t, s0);
+                    let (i, j) = (t % 3, t / 3 + 1);
+                    let body = match i {
+                        0 => format!("y^{j}"),
+                        1 => format!("xy^{j}"),
+                        _ => format!("x^{}y^{j}z", 2 + t % 4),
+                    };
+                    (c < 0, format!("{}{}", c.abs(), body))
+                })
+                .collect();
+            let text = join_terms(&mut rng, &terms);
+            if let Some(p) = parse_inter(&text) {
+                for v in ["x", "y", "z", "q"] {
+                    emit(format!("txt {} pderiv {} {}", req_string(&text), req_any(&p), req_string(v)));
+                }
+                for v in ["x", "y", "z"] {
+                    let binds = [("x".to_string(), *rng.pick(&[1.0, -1.0, 2.0, 0.5, 1.5])), ("y".to_string(), *rng.pick(&near_one[..5])), ("z".to_string(), *rng.pick(&[1.0, -1.0, 3.0, 0.25]))];
+                    emit(chainm(&text, &p, &format!("D {}", req_string(v)), 1, &binds));
+                }
+                let binds = [("x".to_string(), 1.0), ("y".to_string(), -1.0), ("z".to_string(), 2.0)];
+                emit(chainm(&text, &p, "D 1 120 D 1 121", 2, &binds));
+            }
+        }
+    }
+    // ---- (O3) one exponent at the block values (the power-rule factor), both parsers
+    for &blk in &[16usize, 32, 64, 128, 256, 1024, 4096] {
+        for e in [blk - 1, blk, blk + 1, blk + 2, 2 * blk + 1] {
+            let c = rng.range(2, 9);
+            let t = format!("{c}x^{e}y - {}x^{}y^{e} + x", rng.range(2, 9), e - 1);
+            if let Some(p) = parse_inter(&t) {
+                emit(format!("txt {} pderiv {} 1 120", req_string(&t), req_any(&p)));
+                emit(format!("txt {} pderiv {} 1 121", req_string(&t), req_any(&p)));
+                let binds = [("x".to_string(), *rng.pick(&[1.0, -1.0, 1.0 + 2f64.powi(-10)])), ("y".to_string(), *rng.pick(&[1.0, -1.0, 1.0 - 2f64.powi(-11)]))];
+                emit(chainm(&t, &p, "D 1 120", 1, &binds));
+                emit(chainm(&t, &p, "D 1 121", 1, &binds));
+            }
+            if e <= 1026 || thorough {
+                let t = format!("{c}x^{e} - {}x^{} + x - 4", rng.range(2, 9), e - 1);
+                if let Some(p) = parse_simple(&t) {
+                    emit(format!("txt {} deriv {}", req_string(&t), req_any(&p)));
+                    emit(chain1(&t, &p, "d", 1, *rng.pick(&[1.0, -1.0, 1.0 + 2f64.powi(-10)])));
+                }
+            }
+        }
+    }
+    // ---- (O4) number of variables in one term
+    for nv in [15usize, 16, 17, 18, 31, 32, 33, 34, 51, 52] {
+        for which in 0..3usize {
+            let mut letters: Vec<char> = ALPHA.chars().collect();
+            for i in (1..letters.len()).rev() {
+                letters.swap(i, rng.below(i as u64 + 1) as usize);
+            }
+            let used: Vec<char> = letters.iter().take(nv).cloned().collect();
+            let mut body = format!("{}", rng.range(2, 9));
+            for (i, c) in used.iter().enumerate() {
+                body.push(*c);
+                body.push_str(&format!("^{}", 1 + (i * 7 + which) % 4));
+            }
+            let text = format!("{body} - {}{} + 3", used[0], used[nv - 1]);
+            if let Some(p) = parse_inter(&text) {
+                let names = poly_names(&p);
+                // first / middle / last of the SORTED variable list and of the term as written
+                let v = match which {
+                    0 => names[0].clone(),
+                    1 => names[names.len() / 2].clone(),
+                    _ => names[names.len() - 1].clone(),
+                };
+                let w = used[[0, nv / 2, nv - 1][which]].to_string();
+                for d in [v, w] {
+                    emit(format!("txt {} pderiv {} {}", req_string(&text), req_any(&p), req_string(&d)));
+                    let binds: Vec<(String, f64)> = names.iter().enumerate().map(|(i, n)| (n.clone(), [1.0, -1.0, 2.0, 0.5, 1.5, -0.5][(i * 5 + which) % 6])).collect();
+                    emit(chainm(&text, &p, &format!("D {}", req_string(&d)), 1, &binds));
+                }
+            }
+        }
+    }
+    // ---- (P) exact relations
+    let nudges = |x: f64| -> Vec<f64> {
+        if x == 0.0 {
+            vec![0.0, -0.0, 5e-324, 2f64.powi(-40)]
+        } else {
+            vec![x, f64::from_bits(x.to_bits() + 1), f64::from_bits(x.to_bits() - 1), x * (1.0 + 2f64.powi(-40))]
+        }
+    };
+    // univariate texts with the points at which the derivative vanishes exactly (or the factor c k is exactly 1)
+    let mut uni: Vec<(String, Vec<f64>)> = vec![
+        ("0.5x^2".into(), vec![1.0, 0.0]),
+        ("0.5x^2 - x".into(), vec![1.0]),
+        ("0.25x^4 - x".into(), vec![1.0]),
+        ("0.125x^8 - x + 3".into(), vec![1.0]),
+        ("0.2x^5 - x".into(), vec![1.0, -1.0]),
+        ("0.1x^10 - x".into(), vec![1.0]),
+        ("0.0625x^16 + 0.03125x^32 - 2x".into(), vec![1.0]),
+        ("x^3 - 3x".into(), vec![1.0, -1.0]),
+        ("x^2 - 2x + 1".into(), vec![1.0]),
+        ("2x^3 - 3x^2".into(), vec![0.0, 1.0]),
+        ("x^4 - 4x".into(), vec![1.0]),
+        ("x^4 - 2x^2".into(), vec![0.0, 1.0, -1.0]),
+        ("3x^4 - 4x^3".into(), vec![0.0, 1.0]),
+        ("x^2 + x^1 + x^0".into(), vec![-0.5]),
+        ("x^2 - x^2 + x".into(), vec![1.0]),
+        ("x^3 + 0x^2 - 12x".into(), vec![2.0, -2.0]),
+        ("0.5x^2 + 0.5x^2 - 2x".into(), vec![1.0]),
+    ];
+    // (x - a)^2 (x - b) = x^3 - (2a + b) x^2 + (a^2 + 2ab) x - a^2 b with small integers / halves: derivative zero at a
+    for _ in 0..if thorough { 60 } else { 10 } {
+        let a = rng.range(-6, 6) as f64 / 2.0;
+        let b = rng.range(-5, 5) as f64;
+        let (c2, c1, c0) = (-(2.0 * a + b), a * a + 2.0 * a * b, -a * a * b);
+        let term = |c: f64, body: &str| (c < 0.0, format!("{}{}", c.abs(), body));
+        let text = join_terms(&mut rng, &[(false, "x^3".to_string()), term(c2, "x^2"), term(c1, "x"), term(c0, "")]);
+        uni.push((text, vec![a, (2.0 * b + a) / 3.0]));
+    }
+    for (text, pts) in &uni {
+        for parser in 0..2 {
+            let p = if parser == 0 { parse_simple(text) } else { parse_inter(text) };
+            let Some(p) = p else { continue };
+            emit(format!("txt {} deriv {}", req_string(text), req_any(&p)));
+            emit(format!("txt {} pderiv {} 1 120", req_string(text), req_any(&p)));
+            for x0 in pts {
+                for x in nudges(*x0) {
+                    emit(chain1(text, &p, "d", 1, x));
+                    if parser == 1 {
+                        emit(chainm(text, &p, "D 1 120", 1, &[("x".to_string(), x)]));
+                    }
+                }
+                emit(chain1(text, &p, "d d", 2, *x0));
+                emit(chain1(text, &p, "i d", 2, *x0));
+            }
+        }
+    }
+    // multivariate: like terms among the derivative's terms, exact cancellation, stationary points
+    let multi: Vec<(&str, Vec<(&str, f64)>)> = vec![
+        ("x^2y - 2xy", vec![("x", 1.0), ("y", 3.0)]),
+        ("xy - x", vec![("x", 2.0), ("y", 1.0)]),
+        ("x^2y^2 - 2xy", vec![("x", 2.0), ("y", 0.5)]),
+        ("x^2y - yx^2", vec![("x", 1.5), ("y", 2.0)]),
+        ("xyx - x^2y", vec![("x", 1.5), ("y", 2.0)]),
+        ("xyx + x^2y", vec![("x", 1.5), ("y", 2.0)]),
+        ("0.5x^2y + yx", vec![("x", -1.0), ("y", 2.0)]),
+        ("x^2y + xy^2 - 3xy", vec![("x", 1.0), ("y", 1.0)]),
+        ("x^1.5y - x^1.2y", vec![("x", 1.0), ("y", 2.0)]),
+        ("x^2.5y + x^2.25y + x^2y", vec![("x", 4.0), ("y", 1.0)]),
+        ("x^1.5 - 1.5x", vec![("x", 1.0)]),
+        ("x^0.5 - 0.5x", vec![("x", 1.0)]),
+        ("x^-1 + x", vec![("x", 1.0)]),
+        ("x^-1y + xy", vec![("x", -1.0), ("y", 5.0)]),
+        ("x^2 + y^2 - 2x - 2y", vec![("x", 1.0), ("y", 1.0)]),
+        ("xy + yx + 2x", vec![("x", 3.0), ("y", -1.0)]),
+        ("x^3y - 3xy + y", vec![("x", -1.0), ("y", 7.0)]),
+        ("ab - ba + a", vec![("a", 1.0), ("b", 2.0)]),
+        ("x^2y + 2xy - x^2y", vec![("x", 1.0), ("y", 1.0)]),
+        ("x^1.5y + x^1.5y", vec![("x", 4.0), ("y", 1.0)]),
+        ("x^1.7y - x^1.2y + x^-0.5y - x^-0.2y", vec![("x", 1.0), ("y", 2.0)]),
+    ];
+    for (text, at) in &multi {
+        let Some(p) = parse_inter(text) else { continue };
+        let names = poly_names(&p);
+        for v in names.iter().chain(["q".to_string()].iter()) {
+            emit(format!("txt {} pderiv {} {}", req_string(text), req_any(&p), req_string(v)));
+        }
+        for v in &names {
+            for m in 0..4usize {
+                // every variable nudged in turn
+                for which in 0..at.len() {
+                    let binds: Vec<(String, f64)> = at.iter().enumerate().map(|(i, (n, x))| (n.to_string(), if i == which { nudges(*x)[m] } else { *x })).collect();
+                    emit(chainm(text, &p, &format!("D {}", req_string(v)), 1, &binds));
+                    if m == 0 {
+                        break;
+                    }
+                }
+            }
+            let binds: Vec<(String, f64)> = at.iter().map(|(n, x)| (n.to_string(), *x)).collect();
+            emit(chainm(text, &p, &format!("D {} D {}", req_string(v), req_string(&names[0])), 2, &binds));
+        }
+        if names.len() == 1 {
+            emit(format!("txt {} deriv {}", req_string(text), req_any(&p)));
+            emit(chain1(text, &p, "d", 1, at[0].1));
+        }
+    }
 }
